@@ -195,7 +195,8 @@ def r11_3(ctx, repo):
     rule = 'R11.3'
     T = Types(repo)
     n = 0
-    for cls in repo.subclasses('MechanisticModel', strict=True):
+    for cls in ['MechanisticModel'] + list(repo.subclasses(
+            'MechanisticModel', strict=True)):
         c = repo.cls(cls)
         fn = c.methods.get('copy')
         if fn is None:
@@ -220,7 +221,19 @@ def r11_3(ctx, repo):
         for k, node in kinds:
             if k == 'shallow':
                 ip = inplace_fields(repo, cls) | nested_objects(repo, T, cls)
-                if ip:
+                if cls == 'MechanisticModel':
+                    # the default every user-defined model inherits: its
+                    # state is unknown, only a deep copy shares nothing
+                    ctx.violation(
+                        rule, repo.loc(node, cls, 'copy'), construct,
+                        'shallow self copy',
+                        'the default copy() of the base class, inherited by '
+                        'user-defined mechanistic models, returns a shallow '
+                        'copy: every container the user model keeps its '
+                        'state in is shared between the model, its copies '
+                        'and the likelihoods / predictive models built '
+                        'from it')
+                elif ip:
                     ctx.violation(
                         rule, repo.loc(node, cls, 'copy'), construct,
                         'shallow self copy',
@@ -300,8 +313,8 @@ def r11_3(ctx, repo):
                     'not %s' % (f, 'restore it on the original'
                                 if not restored else
                                 'create it on the clone'))
-    if n < 3:
-        ctx.error(rule, 'only %d copy() methods found (floor 3)' % n)
+    if n < 4:
+        ctx.error(rule, 'only %d copy() methods found (floor 4)' % n)
 
 
 def r11_6(ctx, repo):
